@@ -215,6 +215,9 @@ func (x *Exec) delayModel(st *State, site ssa.Instruction, args []Val) Val {
 }
 
 func (x *Exec) bindConfig(ce *CEnv, c *Contract) {
+	for _, sp := range c.Splits {
+		ce.vars[sp.Var] = ce.eval(sp.LHS)
+	}
 	if c.Config == nil {
 		return
 	}
@@ -311,6 +314,9 @@ func (x *Exec) applyContract(st *State, site ssa.Instruction, fn *ssa.Function, 
 	if c.Trusted != "" {
 		x.trust("trusted contract of " + name + ": " + c.Trusted)
 	}
+	if c.Partial != "" {
+		x.trust("contract of " + name + " is only partly discharged (" + c.Partial + "); beyond that it is assumed here")
+	}
 	return tupleOf(results)
 }
 
@@ -366,6 +372,7 @@ type hloc struct {
 	ar         int
 	idx        []*Term // full index (len == ar) or row prefix (len == 1 < ar) or nil (whole family)
 	appendFrom *Term   // log families: only entries at positions >= appendFrom may change
+	guard      *Term   // the location is modifiable only when guard holds (cond ==> loc)
 }
 
 func (l hloc) apply(h *Heap) {
@@ -376,7 +383,11 @@ func (l hloc) apply(h *Heap) {
 	case l.idx == nil:
 		h.Set(l.fam, freshBase(l.fam+"!hv", l.ar, l.sort))
 	case len(l.idx) == l.ar:
-		h.Set(l.fam, f.Store(l.idx, FreshVar(l.fam+"!v", l.sort)))
+		nv := FreshVar(l.fam+"!v", l.sort)
+		if l.guard != nil {
+			nv = Ite(l.guard, nv, f.Select(l.idx))
+		}
+		h.Set(l.fam, f.Store(l.idx, nv))
 	case len(l.idx) == 1 && l.ar == 2:
 		fb := freshBase(l.fam+"!row", l.ar, l.sort)
 		h.Set(l.fam, f.RowCopy(l.idx[0], fb, l.idx[0]))
@@ -395,6 +406,20 @@ func (x *Exec) resolveLoc(ce *CEnv, e *CExpr) []hloc {
 		}
 	}
 	switch {
+	case e.Op == "==>":
+		g := ce.evalBool(e.Args[0])
+		for _, hl := range x.resolveLoc(ce, e.Args[1]) {
+			if len(hl.idx) != hl.ar || hl.appendFrom != nil {
+				cfail("conditional modifies needs single locations: %s", e)
+			}
+			if hl.guard != nil {
+				hl.guard = And(g, hl.guard)
+			} else {
+				hl.guard = g
+			}
+			out = append(out, hl)
+		}
+		return out
 	case e.Op == "ident" && e.Name == "log":
 		out = append(out, hloc{fam: "log#n", sort: SInt, ar: 0, idx: []*Term{}})
 		var names []string
